@@ -151,6 +151,7 @@ class Config:
         self.unary_minus = True
         self.keyword_literals = True
         self.tight_operators = True
+        self.transactions = True
         for k, v in kw.items():
             if not hasattr(self, k):
                 raise TypeError(k)
@@ -776,10 +777,26 @@ class Gen:
             self.s.wheres.append((w, l))
             self.s.features.add('where')
 
+    def transaction_stmt(self, depth):
+        rng = self.rng
+        words = rng.choice(['BEGIN', 'BEGIN TRANSACTION', 'COMMIT',
+                            'ROLLBACK', 'START TRANSACTION', 'END',
+                            'BEGIN WORK', 'COMMIT WORK'])
+        first = True
+        for w in words.split():
+            self.kw(w, 'opt' if first else 'req')
+            first = False
+        lead = words.split()[0]
+        return lead if lead in ('COMMIT', 'ROLLBACK', 'START') else 'UNKNOWN'
+
     def create_table(self, depth):
         rng = self.rng
         self.kw('CREATE', 'opt')
         self.kw('TABLE')
+        if rng.random() < 0.2:
+            self.kw('IF')
+            self.kw('NOT')
+            self.kw('EXISTS')
         self.colref(ctx='ddl')
         o = self.open_paren('req')
         for k in range(rng.randint(1, 4)):
@@ -830,6 +847,9 @@ class Gen:
     def drop_stmt(self, depth):
         self.kw('DROP', 'opt')
         self.kw(self.rng.choice(['TABLE', 'VIEW', 'INDEX']))
+        if self.rng.random() < 0.25:
+            self.kw('IF')
+            self.kw('EXISTS')
         self.colref(ctx='ddl')
 
     def alter_stmt(self, depth):
@@ -897,6 +917,8 @@ class Gen:
                           'drop', 'alter', 'create_table_as']
             if cfg.ctes:
                 kinds += ['with', 'with']
+            if cfg.transactions:
+                kinds += ['transaction']
             kind = rng.choice(kinds)
         s = self.s
         s.kind = kind
@@ -934,6 +956,9 @@ class Gen:
         elif kind == 'with':
             s.stype = self.with_stmt(depth)
             s.leading = 'WITH'
+        elif kind == 'transaction':
+            s.stype = self.transaction_stmt(depth)
+            s.leading = s.toks[0].text
         else:
             raise ValueError(kind)
         s.toks[0].gap = 'opt'
@@ -1190,8 +1215,11 @@ class Script:
                 if tail_comments and layout.comments and rng.random() < 0.35:
                     # comments behind the last statement (same line or own
                     # line); a block comment there is a statement of its own
-                    tail = rng.choice(['', ' ', '\n', '\n\n']) \
-                        + layout.comment() + rng.choice(['', '\n', ' '])
+                    c = layout.comment()
+                    pre = rng.choice(['', ' ', '\n', '\n\n'])
+                    if c.startswith('#') and not pre:
+                        pre = ' '      # '#' would fuse with a word before it
+                    tail = pre + c + rng.choice(['', '\n', ' '])
                     if rng.random() < 0.3:
                         tail += layout.comment()
                     _locate(tail, sum(len(c) for c in out),
